@@ -121,7 +121,7 @@ func buildArch(t Triple3, parsed, short bool) (dependency.Arch, error) {
 
 var specC06Match = Register(&Spec[ArchPair]{
 	Prop: "C06", Name: "match",
-	Rule: "bounded-exhaustive: ALL 28 concrete architectures (atomic 'all' + 3 abi x 3 os x 3 cpu generic names) x ALL 65 patterns (atomic 'all' + each component 'any' or one of the three names) = 1820 pairs, each built three ways (struct literals, ParseArch of the 3-part name, ParseArch of the shortest Debian spelling) and evaluated in both call directions. Oracle: c.Is(p) == p.Is(c) == [p=all => c=all; c=all => p=all; else every component of p is 'any' or equal]. Non-trivial: pattern has >= 1 'any' component or an atom 'all' is involved; distinct by (c,p,construction).",
+	Rule: "bounded-exhaustive: ALL 28 concrete architectures (atomic 'all' + 3 abi x 3 os x 3 cpu generic names) x ALL 65 patterns (atomic 'all' + each component 'any' or one of the three names) = 1820 pairs, each built three ways (struct literals, ParseArch of the 3-part name, ParseArch of the shortest Debian spelling) and evaluated in both call directions. Oracle: c.Is(p) == p.Is(c) == [p=all => c=all; c=all => p=all; else every component of p is 'any' or equal]; IsWildcard() is true exactly for the patterns with an 'any' component. Non-trivial: pattern has >= 1 'any' component or an atom 'all' is involved; distinct by (c,p,construction).",
 	Check: func(c ArchPair, r *Recorder) error {
 		nt := c.P.wildcard() || c.P == atomAll || c.C == atomAll
 		r.Case(jsonKey(c), nt)
@@ -135,6 +135,14 @@ var specC06Match = Register(&Spec[ArchPair]{
 		pa, err := buildArch(c.P, c.Parsed, c.Short)
 		if err != nil {
 			return err
+		}
+		// IsWildcard says of an architecture what the model says of its triple: some component is
+		// 'any' (the atom 'all' is no wildcard, a concrete architecture neither)
+		if got, wantW := pa.IsWildcard(), c.P.wildcard() && c.P != atomAll; got != wantW {
+			return errf("pattern %s: IsWildcard() = %v, the triple says %v", c.P.name3(), got, wantW)
+		}
+		if ca.IsWildcard() {
+			return errf("concrete %s: IsWildcard() = true", c.C.name3())
 		}
 		want := refArchMatch(c.C, c.P)
 		if got := ca.Is(&pa); got != want {
